@@ -546,6 +546,57 @@ impl Driver {
         });
     }
 
+    /// Recursive logging: the outer record's message contains a value whose `Display`
+    /// implementation logs the inner record through the same logger (the inner line comes first).
+    pub fn write_nested(&self, level: log::Level, outer: &str, inner: &str) {
+        struct Nest<'a> {
+            d: &'a Driver,
+            level: log::Level,
+            inner: &'a str,
+        }
+        impl std::fmt::Display for Nest<'_> {
+            fn fmt(&self, _f: &mut std::fmt::Formatter) -> std::fmt::Result {
+                self.d.write(self.level, self.inner);
+                Ok(())
+            }
+        }
+        let nest = Nest { d: self, level, inner };
+        let send = |rec: &log::Record| match self {
+            Driver::L1(Some(w)) => {
+                let mut now = DeferredNow::new();
+                let _ = w.write(&mut now, rec);
+            }
+            Driver::L2 { logger: Some(l), .. } => {
+                if level <= log::max_level() {
+                    l.log(rec);
+                }
+            }
+            _ => {}
+        };
+        send(&log::Record::builder()
+            .args(format_args!("{nest}{outer}"))
+            .level(level)
+            .target(MODULE)
+            .module_path(Some(MODULE))
+            .file(Some("src/wl.rs"))
+            .line(Some(42))
+            .build());
+    }
+
+    /// like `write`; an L1 writer hands the error of the write to its caller
+    pub fn write_result(&self, level: log::Level, msg: &str) -> Result<(), String> {
+        match self {
+            Driver::L1(Some(w)) => with_record(level, MODULE, msg, |rec| {
+                let mut now = DeferredNow::new();
+                w.write(&mut now, rec).map_err(|e| e.to_string())
+            }),
+            _ => {
+                self.write(level, msg);
+                Ok(())
+            }
+        }
+    }
+
     pub fn rotate(&self) -> Result<(), String> {
         match self {
             Driver::L1(Some(w)) => w.rotate().map_err(|e| format!("{e:?}")),
@@ -1069,6 +1120,12 @@ pub enum HOp {
     /// reopen_output() with the current file in place (a SIGHUP handler that fires although the
     /// external rotator had nothing to do): nothing changes for the records or the rotation
     Reopen,
+    /// an explicit rotation during which the new file cannot be opened (injected at the fs point
+    /// `open`): the logger goes on in the file it has, nothing changes for records, sizes, periods
+    /// or the name the file gets when it is rotated later
+    TriggerFailingOpen,
+    /// a record (level, length) whose message logs another record (length) while it is formatted
+    WriteNested(log::Level, usize, usize),
 }
 
 pub struct Hist {
@@ -1118,6 +1175,36 @@ impl Hist {
                     self.model.write(&line, self.cfg.append, now);
                 }
                 self.records += 1;
+            }
+            HOp::TriggerFailingOpen => {
+                if self.model.active {
+                    let n = ctl::with_ctl(|c| c.counts.get("open").copied().unwrap_or(0));
+                    ctl::with_ctl(|c| {
+                        c.plan.push(ctl::PlanItem {
+                            name: "open".into(),
+                            from: n + 1,
+                            to: n + 1,
+                            action: ctl::Action::Fail(std::io::ErrorKind::PermissionDenied),
+                        });
+                    });
+                    let _ = self.driver.rotate();
+                    ctl::with_ctl(|c| c.plan.clear());
+                }
+            }
+            HOp::WriteNested(level, len_outer, len_inner) => {
+                let inner = msg_exact(self.seq, *len_inner);
+                let outer = msg_exact(self.seq + 1, *len_outer);
+                self.seq += 2;
+                self.driver.write_nested(*level, &outer, &inner);
+                if *level <= self.cfg.max_level {
+                    let now = self.now();
+                    for m in [&inner, &outer] {
+                        let mut line = self.cfg.fmt.expected(*level, m);
+                        line.extend_from_slice(self.cfg.line_ending());
+                        self.model.write(&line, self.cfg.append, now);
+                    }
+                }
+                self.records += 2;
             }
             HOp::Trigger => {
                 let now = self.now();
